@@ -400,3 +400,157 @@ Corollary plan_inert_iff cmd (l : list token) : cmd_ok cmd = true ->
 Proof.
   intros Hc. split; [now apply plan_inert_conv|]. intros [H1 H2]. now apply plan_inert.
 Qed.
+
+(** * One GENUINE input redirection among harmless tokens *)
+(** [cmd a.. OP target b..] with OP the untagged word [<] or [<<<]: the operator and its target are
+    taken out, nothing else is: a tagged token whose text is [<] (a produced value) stays a word. *)
+Lemma ttr_inert cmd l : cmd_ok cmd = true -> forallb inert_tok l = true ->
+  tokens_to_redirections ((TNone, cmd) :: l) = inl ((TNone, cmd) :: l, []).
+Proof.
+  intros Hc Hq. unfold cmd_ok in Hc. repeat (apply andb_true_iff in Hc as [Hc ?]).
+  repeat match goal with H : negb _ = true |- _ => apply negb_true_iff in H end.
+  unfold tokens_to_redirections. cbn [redir_loop]. unfold redir_step at 1.
+  cbn [r_tbc r_new r_red r_s1 r_s2 tag_eqb negb andb].
+  match goal with H : has_char c_gt cmd = false |- _ => rewrite H end. cbn [negb].
+  rewrite redir_loop_inert by assumption. reflexivity.
+Qed.
+
+Lemma position_inert w l : (w = s_lt \/ w = s_lt3) -> forallb inert_tok l = true -> position w l = None.
+Proof.
+  intros Hw. induction l as [|[tg x] l IH]; [reflexivity|]. cbn [forallb position]. intros H.
+  apply andb_true_iff in H as [Ht Hl]. rewrite (IH Hl).
+  apply inert_tok_cases in Ht as [Ht|(_ & _ & H1 & H2)].
+  - now rewrite Ht.
+  - destruct Hw as [-> | ->]; [rewrite H1|rewrite H2]; now rewrite andb_false_r.
+Qed.
+
+Lemma position_none w (l : list token) :
+  (forall t, In t l -> tag_eqb (fst t) TNone && str_eqb (snd t) w = false) -> position w l = None.
+Proof.
+  induction l as [|[tg x] l IH]; [reflexivity|]. intros H. cbn [position].
+  pose proof (H (tg, x) (or_introl eq_refl)) as H0. cbn [fst snd] in H0. rewrite H0.
+  rewrite IH; [reflexivity|]. intros t Ht. apply H. now right.
+Qed.
+
+Lemma position_found w (l1 : list token) r : position w l1 = None -> position w (l1 ++ (TNone, w) :: r) = Some (length l1).
+Proof.
+  induction l1 as [|[tg x] l1 IH]; intros H.
+  - cbn [app position length tag_eqb andb]. now rewrite str_eqb_refl.
+  - cbn [app position length] in *. destruct (tag_eqb tg TNone && str_eqb x w); [discriminate|].
+    destruct (position w l1); [discriminate|]. now rewrite IH.
+Qed.
+
+Lemma remove_at_mid {A} (l1 : list A) x r : remove_at (length l1) (l1 ++ x :: r) = l1 ++ r.
+Proof. induction l1 as [|y l1 IH]; [reflexivity|]. cbn [length app remove_at]. now rewrite IH. Qed.
+
+Lemma nth_error_mid {A} (l1 : list A) x r : nth_error (l1 ++ x :: r) (length l1) = Some x.
+Proof. induction l1 as [|y l1 IH]; [reflexivity|]. exact IH. Qed.
+
+Lemma take_from_found w (l1 : list token) tgt r ty va : position w l1 = None ->
+  take_from w (l1 ++ (TNone, w) :: tgt :: r, ty, va) = (l1 ++ r, w, snd tgt).
+Proof.
+  intros H. unfold take_from. rewrite (position_found w l1 (tgt :: r) H).
+  rewrite remove_at_mid, nth_error_mid, remove_at_mid. destruct tgt. reflexivity.
+Qed.
+
+Lemma take_from_absent w (l : list token) ty va : position w l = None -> take_from w (l, ty, va) = (l, ty, va).
+Proof. intros H. unfold take_from. now rewrite H. Qed.
+
+Lemma cmd_position w cmd l : cmd_ok cmd = true -> (w = s_lt \/ w = s_lt3) ->
+  position w ((TNone, cmd) :: l) = match position w l with Some n => Some (S n) | None => None end.
+Proof.
+  intros Hc Hw. unfold cmd_ok in Hc. repeat (apply andb_true_iff in Hc as [Hc ?]).
+  repeat match goal with H : negb _ = true |- _ => apply negb_true_iff in H end.
+  cbn [position tag_eqb andb]. destruct Hw as [-> | ->];
+    repeat match goal with H : str_eqb cmd _ = false |- _ => rewrite H end; reflexivity.
+Qed.
+
+Lemma from_loop_one fuel (L L' : list token) (ty va : str) :
+  has_from L = true -> take_from s_lt3 (take_from s_lt (L, [], [])) = (L', ty, va) -> has_from L' = false ->
+  from_loop (S (S fuel)) (L, [], []) = Some (L', ty, va).
+Proof.
+  intros H1 H2 H3. cbn [from_loop]. rewrite H1, H2. cbn [from_loop]. now rewrite H3.
+Qed.
+
+Theorem plan_inert_from cmd (a b : list token) op tgt :
+  cmd_ok cmd = true -> forallb inert_tok a = true -> forallb inert_tok b = true -> inert_tok tgt = true ->
+  last_amp (tgt :: b) = false -> (op = s_lt \/ op = s_lt3) ->
+  plan_tokens ((TNone, cmd) :: a ++ (TNone, op) :: tgt :: b) =
+  inl (mkcl [mkc ((TNone, cmd) :: a ++ b) [] (Some (op, snd tgt))] [] false).
+Proof.
+  intros Hc Ha Hb Ht Hla Hop.
+  assert (Hopne : str_eqb op [c_pipe] = false) by (destruct Hop as [-> | ->]; reflexivity).
+  rewrite (plan_tokens_cmd _ _ Hc), bg_test_last.
+  rewrite last_amp_app_ne by discriminate.
+  change ((TNone, op) :: tgt :: b) with ([(TNone, op)] ++ tgt :: b). rewrite last_amp_app_ne by discriminate.
+  rewrite Hla. cbn [app].
+  (* no pipe word *)
+  assert (Hnp : forall l : list token, (forall t, In t l -> pipe_tok t = false) -> filter pipe_tok l = []).
+  { induction l as [|t l IH]; [reflexivity|]. intros H. cbn [filter]. rewrite (H t (or_introl eq_refl)).
+    apply IH. intros x Hx. apply H. now right. }
+  assert (Hip : forall t, inert_tok t = true -> pipe_tok t = false).
+  { intros [tg x] H. unfold pipe_tok. cbn [fst snd].
+    apply inert_tok_cases in H as [H|(_ & H & _)]; rewrite H; [reflexivity|apply andb_false_r]. }
+  assert (Hcp : str_eqb cmd [c_pipe] = false).
+  { pose proof Hc as Hc'. unfold cmd_ok in Hc'. repeat (apply andb_true_iff in Hc' as [Hc' ?]).
+    repeat match goal with H : negb _ = true |- _ => apply negb_true_iff in H end. assumption. }
+  rewrite split_pipes_no_pipe.
+  2:{ apply Hnp. intros t [<-|Hin].
+      - unfold pipe_tok. cbn [fst snd tag_eqb andb]. exact Hcp.
+      - apply in_app_or in Hin as [Hin|[<-|[<-|Hin]]].
+        + apply Hip. rewrite forallb_forall in Ha. now apply Ha.
+        + unfold pipe_tok. cbn [fst snd tag_eqb andb]. exact Hopne.
+        + now apply Hip.
+        + apply Hip. rewrite forallb_forall in Hb. now apply Hb. }
+  cbn [app is_empty map_cmds].
+  (* the input redirection *)
+  assert (Hfrom : from_tokens ((TNone, cmd) :: a ++ (TNone, op) :: tgt :: b) = inl (mkc ((TNone, cmd) :: a ++ b) [] (Some (op, snd tgt)))).
+  { unfold from_tokens.
+    assert (Hhf : has_from ((TNone, cmd) :: a ++ (TNone, op) :: tgt :: b) = true).
+    { unfold has_from. change ((TNone, cmd) :: a ++ (TNone, op) :: tgt :: b) with (((TNone, cmd) :: a) ++ (TNone, op) :: tgt :: b).
+      rewrite existsb_app. cbn [existsb fst snd tag_eqb andb]. destruct Hop as [-> | ->]; cbn; now rewrite ?orb_true_r. }
+    assert (Hab : forallb inert_tok (a ++ b) = true) by (rewrite forallb_app; now rewrite Ha, Hb).
+    assert (Hnf : has_from ((TNone, cmd) :: a ++ b) = false).
+    { pose proof Hc as Hc'. unfold cmd_ok in Hc'. repeat (apply andb_true_iff in Hc' as [Hc' ?]).
+      repeat match goal with H : negb _ = true |- _ => apply negb_true_iff in H end.
+      cbn [has_from existsb fst snd tag_eqb andb].
+      repeat match goal with H : str_eqb cmd _ = false |- _ => rewrite H end. cbn [orb]. now apply has_from_inert. }
+    assert (Hstep : take_from s_lt3 (take_from s_lt ((TNone, cmd) :: a ++ (TNone, op) :: tgt :: b, [], []))
+                    = ((TNone, cmd) :: a ++ b, op, snd tgt)).
+    { assert (Pa : forall w, w = s_lt \/ w = s_lt3 -> position w ((TNone, cmd) :: a) = None).
+      { intros w Hw. rewrite (cmd_position w cmd a Hc Hw), (position_inert w a Hw Ha). reflexivity. }
+      assert (Pab : forall w, w = s_lt \/ w = s_lt3 -> position w ((TNone, cmd) :: a ++ b) = None).
+      { intros w Hw. rewrite (cmd_position w cmd (a ++ b) Hc Hw), (position_inert w (a ++ b) Hw Hab). reflexivity. }
+      change ((TNone, cmd) :: a ++ (TNone, op) :: tgt :: b) with (((TNone, cmd) :: a) ++ (TNone, op) :: tgt :: b).
+      destruct Hop as [-> | ->].
+      - assert (E1 : take_from s_lt (((TNone, cmd) :: a) ++ (TNone, s_lt) :: tgt :: b, [], []) = (((TNone, cmd) :: a) ++ b, s_lt, snd tgt))
+          by (apply take_from_found; apply Pa; now left).
+        etransitivity; [exact (f_equal (take_from s_lt3) E1)|].
+        apply take_from_absent. apply Pab. now right.
+      - assert (E1 : take_from s_lt (((TNone, cmd) :: a) ++ (TNone, s_lt3) :: tgt :: b, [], []) = (((TNone, cmd) :: a) ++ (TNone, s_lt3) :: tgt :: b, [], [])).
+        { apply take_from_absent.
+          change (((TNone, cmd) :: a) ++ (TNone, s_lt3) :: tgt :: b) with ((TNone, cmd) :: a ++ (TNone, s_lt3) :: tgt :: b).
+          rewrite (cmd_position s_lt cmd _ Hc (or_introl eq_refl)).
+          rewrite (position_none s_lt (a ++ (TNone, s_lt3) :: tgt :: b)); [reflexivity|].
+          assert (Hi : forall t, inert_tok t = true -> tag_eqb (fst t) TNone && str_eqb (snd t) s_lt = false).
+          { intros [tg x] H. cbn [fst snd]. apply inert_tok_cases in H as [H|(_ & _ & H & _)]; rewrite H; [reflexivity|apply andb_false_r]. }
+          intros t Hin. apply in_app_or in Hin as [Hin|[<-|[<-|Hin]]].
+          - apply Hi. rewrite forallb_forall in Ha. now apply Ha.
+          - reflexivity.
+          - now apply Hi.
+          - apply Hi. rewrite forallb_forall in Hb. now apply Hb. }
+        etransitivity; [exact (f_equal (take_from s_lt3) E1)|].
+        apply (take_from_found s_lt3 ((TNone, cmd) :: a) tgt b [] []). apply Pa. now right. }
+    assert (Hfl : from_loop (S (length ((TNone, cmd) :: a ++ (TNone, op) :: tgt :: b))) ((TNone, cmd) :: a ++ (TNone, op) :: tgt :: b, [], [])
+                  = Some ((TNone, cmd) :: a ++ b, op, snd tgt)).
+    { cbn [length]. apply from_loop_one; assumption. }
+    match goal with |- context [from_loop ?f ?x] =>
+      replace (from_loop f x) with (Some ((TNone, cmd) :: a ++ b, op, snd tgt)) by (symmetry; exact Hfl) end.
+    match goal with |- context [tokens_to_redirections ?x] =>
+      replace (tokens_to_redirections x) with (@inl (list token * list redirection) rerr ((TNone, cmd) :: a ++ b, []))
+        by (symmetry; exact (ttr_inert cmd (a ++ b) Hc Hab)) end.
+    destruct Hop as [-> | ->]; reflexivity. }
+  match goal with |- context [from_tokens ?x] =>
+    replace (from_tokens x) with (@inl command perr (mkc ((TNone, cmd) :: a ++ b) [] (Some (op, snd tgt)))) by (symmetry; exact Hfrom) end.
+  reflexivity.
+Qed.
